@@ -83,7 +83,21 @@ func act(id string, args ...interface{}) error {
 		case "osexit":
 			os.Exit(code)
 		case "sh":
-			return sh.Run("sh", "-c", "exit "+parts[1])
+			// sh:<k>[:<entry point>[:<noise>]]  the child writes to stdout (o) and/or stderr (e) before it exits k
+			entry, noise, script := "run", "", ""
+			if len(parts) > 2 {
+				entry = parts[2]
+			}
+			if len(parts) > 3 {
+				noise = parts[3]
+			}
+			if strings.Contains(noise, "o") {
+				script += "echo not ready; "
+			}
+			if strings.Contains(noise, "e") {
+				script += "echo warning >&2; "
+			}
+			return shFail(entry, script+"exit "+parts[1])
 		case "shnotran":
 			return sh.Run("verif-no-such-command-" + id)
 		case "kill":
@@ -107,6 +121,34 @@ func act(id string, args ...interface{}) error {
 		}
 	}
 	return nil
+}
+
+// shFail runs the failing child through one of the entry points of package sh and hands its error on.
+func shFail(entry, script string) error {
+	env := map[string]string{"VERIF_CHILD": "1"}
+	switch entry {
+	case "runv":
+		return sh.RunV("sh", "-c", script)
+	case "runwith":
+		return sh.RunWith(env, "sh", "-c", script)
+	case "runwithv":
+		return sh.RunWithV(env, "sh", "-c", script)
+	case "output":
+		_, err := sh.Output("sh", "-c", script)
+		return err
+	case "outputwith":
+		_, err := sh.OutputWith(env, "sh", "-c", script)
+		return err
+	case "exec":
+		_, err := sh.Exec(env, os.Stdout, os.Stderr, "sh", "-c", script)
+		return err
+	case "runcmd":
+		return sh.RunCmd("sh", "-c")(script)
+	case "outcmd":
+		_, err := sh.OutCmd("sh", "-c")(script)
+		return err
+	}
+	return sh.Run("sh", "-c", script)
 }
 
 func must(err error) {
@@ -162,6 +204,8 @@ def spec_string(behs):
             continue
         if b[0] in ("deps", "sdeps", "ctxdeps"):
             parts.append("%s=%s:%s" % (fid, b[0], ",".join(b[1])))
+        elif b[0] == "sh" and len(b) > 2:
+            parts.append("%s=sh:%d:%s:%s" % (fid, b[1], b[2], b[3]))
         elif len(b) > 1:
             parts.append("%s=%s:%d" % (fid, b[0], b[1]))
         else:
@@ -375,7 +419,7 @@ def scen(fa=None, bd=None, start=True, pr=None, init_err=False, clean_err=False,
 
 # ---------------------------------------------------------------- generators
 SAMPLE_CODES = [1, 2, 3, 5, 7, 37, 64, 99, 100, 125, 126, 127, 128, 129, 130, 137, 143, 200, 250, 254, 255]
-CODE_KINDS = ["fatal", "fatalf", "panic-fatal", "osexit", "sh", "deps-equal", "deps-diff", "deps-sametext-equal", "deps-sametext-diff"]
+CODE_KINDS = ["fatal", "fatalf", "panic-fatal", "osexit", "sh", "sh-dep", "deps-equal", "deps-diff", "deps-sametext-equal", "deps-sametext-diff"]
 SAME_TEXT = "step failed"
 PLAIN_KINDS = ["error", "panic-error", "panic-string", "panic-int", "shnotran"]
 LEAF_DEPS = ["d1", "d2", "d3", "d4", "d5", "d6"]
@@ -388,14 +432,33 @@ def other_code(rng, c):
             return d
 
 
+SH_ENTRIES = ["run", "runv", "runwith", "runwithv", "output", "outputwith", "exec", "runcmd", "outcmd"]
+SH_NOISE = ["", "o", "e", "oe"]
+
+
+def sh_beh(rng, k, shspec=None):
+    """a failing sh command: exit code k, through entry point e, child writing to stdout/stderr as noise says"""
+    e, n = shspec or (rng.choice(SH_ENTRIES), rng.choice(SH_NOISE + ["o", "oe"]))
+    return ("sh", k, e, n)
+
+
 def leaf_failure(rng, c):
     k = rng.choice(["fatal", "fatalf", "panic-fatal", "sh"])
-    return (k, c)
+    return sh_beh(rng, c) if k == "sh" else (k, c)
 
 
-def gen_failure(rng, fid, kind, c, behs):
+def gen_failure(rng, fid, kind, c, behs, shspec=None):
     """make target fid fail in the given way carrying code c; fills behs"""
-    if kind in ("fatal", "fatalf", "panic-fatal", "osexit", "sh"):
+    if kind == "sh":
+        behs[fid] = sh_beh(rng, c, shspec)
+    elif kind == "sh-dep":
+        # the failed command is a dependency's error (possibly next to dependencies that complete)
+        ds = rng.sample(LEAF_DEPS, rng.choice([1, 1, 2, 3]))
+        for i, d in enumerate(ds):
+            behs[d] = sh_beh(rng, c, shspec) if i == 0 else rng.choice([("ok",), ("sh", 0, rng.choice(SH_ENTRIES), rng.choice(SH_NOISE))])
+        rng.shuffle(ds)
+        behs[fid] = (rng.choice(["deps", "ctxdeps", "sdeps"]), ds)
+    elif kind in ("fatal", "fatalf", "panic-fatal", "osexit"):
         behs[fid] = (kind, c)
     elif kind in PLAIN_KINDS:
         behs[fid] = (kind, rng.choice([1, 2, 3])) if kind == "panic-int" else (kind,)
@@ -458,15 +521,15 @@ def gen_failure(rng, fid, kind, c, behs):
     elif kind == "deps-ok":
         ds = rng.sample(LEAF_DEPS, rng.choice([0, 1, 2, 3]))
         for d in ds:
-            behs[d] = rng.choice([("ok",), ("sh", 0)])
+            behs[d] = rng.choice([("ok",), ("sh", 0, rng.choice(SH_ENTRIES), rng.choice(SH_NOISE))])
         behs[fid] = (rng.choice(["deps", "ctxdeps", "sdeps"]), ds)
     elif kind == "sh-ok":
-        behs[fid] = ("sh", 0)
+        behs[fid] = ("sh", 0, rng.choice(SH_ENTRIES), rng.choice(SH_NOISE))
     else:
         raise ValueError(kind)
 
 
-def gen_line(rng, kind, c, npos=None):
+def gen_line(rng, kind, c, npos=None, shspec=None):
     """a 1-3 mention command line in which the mention at a random position fails in way `kind` (or none fails)"""
     n = rng.choice([1, 2, 2, 3, 3])
     ids = rng.sample(sorted(TOP), n)
@@ -494,7 +557,7 @@ def gen_line(rng, kind, c, npos=None):
                 m = {"kind": "badarg", "id": None}
                 w = rng.choice([["a1", "x", "notint"], ["a1", "x", "1.5"], ["a2", "maybe", "1s"], ["a2", "true", "1x"], ["A1", "", ""]])
             elif kind != "none":
-                gen_failure(rng, fid, kind, c, behs)
+                gen_failure(rng, fid, kind, c, behs, shspec)
         elif i < pos or kind == "none":
             r = rng.random()
             if r < 0.2:
@@ -523,8 +586,16 @@ def line_cases(ctx):
         lines.append(gen_line(rng, rng.choice(["unknown", "missing", "badarg"]), 2))
         lines.append(gen_line(rng, "none", 0))
         lines.append(gen_line(rng, "deps-nested", rng.choice(codes)))
+    # every entry point of package sh x what the child writes before it exits k, directly and as a dependency
+    sweep_codes = [2, 7, 127, 255] if ctx.quick else [1, 2, 7, 37, 126, 127, 128, 200, 255]
+    i = 0
+    for ki, k in enumerate(sweep_codes):
+        for e in SH_ENTRIES:
+            for n in SH_NOISE:
+                lines.append(gen_line(rng, "sh" if (i + ki) % 2 == 0 else "sh-dep", k, shspec=(e, n)))
+                i += 1
     # every position of a three-target line for a few kinds
-    for kind in ("fatal", "error", "unknown", "deps-diff", "deps-sametext-diff"):
+    for kind in ("fatal", "error", "unknown", "deps-diff", "deps-sametext-diff", "sh", "sh-dep"):
         for p in range(3):
             for _ in range(20):
                 l = gen_line(rng, kind, rng.choice(codes), npos=p)
